@@ -889,7 +889,8 @@ def run(ctx):
     # ---- 1. Coq -------------------------------------------------------------------------
     if info is not None:
         coq_ok = standard_proof_steps(ctx)
-    key_hashed = info is not None and "'hash'" in repr(info["key_expr"])
+    # what the source looks like, as far as the translator could tell (None = unknown)
+    key_hashed = None if info is None else ("'hash'" in repr(info["key_expr"]))
     ctx.meta["key_hashed"] = key_hashed
 
     import cotengra as ctg
@@ -973,7 +974,24 @@ def run(ctx):
     # ---- 3. oracle -----------------------------------------------------------------------
     P = pools()
     K = known_pools()
-    nseq_pool = ctx.n(28, 260)
+    # the minimised past failures run first
+    cdir = os.path.join(VERIF, "corpus", PROP)
+    if os.path.isdir(cdir):
+        for fn in sorted(os.listdir(cdir)):
+            if not fn.endswith(".py.txt"):
+                continue
+            item = ast.literal_eval(open(os.path.join(cdir, fn)).read())
+            specs = []
+            for sp in item["sequence"]:
+                sp = dict(sp)
+                sp.update({k: v for k, v in instantiate(sp, sp["api"], rng, np, cache=True).items()
+                           if k in ("arrays", "arrays2", "cache")})
+                specs.append(sp)
+            results = exec_sequence(specs, clear=True)
+            judge_sequence(ctx, "corpus:" + fn, specs, results, oracle, np, "corpus", known_key=item.get("known_key"))
+            ctx.count("corpus")
+            ctx.case(("corpus", fn), nontrivial=True, sample={"corpus": fn, "results": repr(results)[:300]})
+    nseq_pool = ctx.n(90, 700)
     batch_sub = []
     total = 0
     for pname, (members, apis) in list(P.items()) + [(k, (v[0], v[1])) for k, v in K.items()]:
@@ -984,6 +1002,9 @@ def run(ctx):
             seqs.append([a, b])
         if len(seqs) > nseq_pool * 2:
             seqs = rng.sample(seqs, nseq_pool * 2)
+        elif len(seqs) < nseq_pool:
+            # small pools: every ordered pair once per api as well
+            seqs = seqs * min(len(apis), 3)
         # longer sequences with repetitions
         for _ in range(nseq_pool):
             seqs.append([rng.randrange(len(members)) for _ in range(rng.randint(3, 4))])
@@ -1018,7 +1039,7 @@ def run(ctx):
                         ctx.count("oracle:sequences_with_a_hit")
                 ctx.case(("oracle", pname, tuple(sq), tuple(apis_here), cache), nontrivial=len(set(sq)) > 1,
                          sample=None)
-            if len(batch_sub) < ctx.n(32, 240) and rng.random() < (0.08 if ctx.quick else 0.05):
+            if len(batch_sub) < ctx.n(40, 320) and rng.random() < (0.03 if ctx.quick else 0.02):
                 specs = [instantiate(members[m], api, rng, np, cache=True) for m, api in zip(sq, apis_here)]
                 batch_sub.append((pname, specs, known_key))
     ctx.log("oracle: %d in-process sequences; %d sequences in fresh interpreters" % (total, len(batch_sub)))
@@ -1168,7 +1189,7 @@ def probe_known(ctx, ctg, I, np, key_hashed, info):
                "theorem": "C13_legacy_key_transparency_refuted / C13_hash_inj_refuted",
                "key_hashed_in_source": key_hashed}
         ctx.fail("two different contractions share a cache entry: hash(-1) == hash(-2) and the dict is keyed on "
-                 "hash(tuple)", rep, key=KEY_COLLISION if key_hashed else None)
+                 "hash(tuple)", rep, key=KEY_COLLISION if key_hashed is not False else None)
     # (b) unhashable key in array_contract_path
     ctx.count("probe:unhashable")
     inputs = (("a", "b"), ("b", "c"), ("c", "d"))
@@ -1187,7 +1208,7 @@ def probe_known(ctx, ctg, I, np, key_hashed, info):
                  {"repro": "ctg.array_contract_path((('a','b'),('b','c'),('c','d')), ('a','d'), {a,b,c,d:2}, "
                            "optimize=[[0,1],[0,1]])", "cache_true": exc or repr(got), "cache_false": repr(want),
                   "theorem": "C13_unhashable_visible_without_fallback", "typeerror_fallback_in_source": fb},
-                 key=KEY_UNHASHABLE if fb is False else None)
+                 key=KEY_UNHASHABLE if fb is not True else None)
 
 
 if __name__ == "__main__":
